@@ -19,52 +19,58 @@ Proof. unfold clamp_hi. destruct (Qlt_le_dec r t) as [H|H]; repeat split; try lr
 
 (* ------------------------------------------------------------------ generated program = closed form *)
 
-Lemma run_global_eq mul cf raw_g raw_l lab0 lo hi :
-  run mul (mkIn MGlobal cf raw_g raw_l lab0) get_threshold_prog lo hi =
-  Some (VNum (clamp_opt lo hi (ref_global mul raw_g cf lo hi)), VNum (ref_global mul raw_g cf lo hi)).
-Proof. destruct lo, hi; reflexivity. Qed.
+Section Run.
+  Variables mul amul : Q -> Q -> Q.
+  Variable cast : Q -> Q.
+  Notation run' := (run mul amul cast).
 
-Lemma run_array_eq mul md cf raw_g raw_l lab0 lo hi :
-  md <> MGlobal ->
-  let inp := mkIn md cf raw_g raw_l lab0 in
-  let g := ref_global mul raw_g cf (Some lo) (Some hi) in
-  run mul inp get_threshold_prog (Some lo) (Some hi) =
-  Some (VArr (ref_local mul band_lo band_hi sentinel_value inp lo hi g), VNum g).
-Proof. intros Hmd. destruct md; [congruence| |]; destruct lab0; reflexivity. Qed.
+  Lemma run_global_eq cf raw_g raw_l lab0 lo hi :
+    run' (mkIn MGlobal cf raw_g raw_l lab0) get_threshold_prog lo hi =
+    Some (VNum (clamp_opt lo hi (ref_global mul raw_g cf lo hi)), VNum (ref_global mul raw_g cf lo hi)).
+  Proof. destruct lo, hi; reflexivity. Qed.
 
-(* without both range limits the array modifiers raise (max(None, x) is a TypeError in Python 3) *)
-Lemma run_array_none mul md cf raw_g raw_l lab0 lo hi :
-  md <> MGlobal -> lo = None \/ hi = None ->
-  run mul (mkIn md cf raw_g raw_l lab0) get_threshold_prog lo hi = None.
-Proof.
-  intros Hmd H. destruct md; try congruence; destruct lo, hi; try reflexivity; destruct H; discriminate.
-Qed.
+  Lemma run_array_eq md cf raw_g raw_l lab0 lo hi :
+    md <> MGlobal ->
+    let inp := mkIn md cf raw_g raw_l lab0 in
+    let g := ref_global mul raw_g cf (Some lo) (Some hi) in
+    run' inp get_threshold_prog (Some lo) (Some hi) =
+    Some (VArr (ref_local mul amul cast band_lo band_hi sentinel_value inp lo hi g), VNum g).
+  Proof. intros Hmd. destruct md; [congruence| |]; destruct lab0; reflexivity. Qed.
 
-Lemma run_global_component mul inp lo hi l v :
-  run mul inp get_threshold_prog lo hi = Some (l, v) ->
-  v = VNum (ref_global mul (in_raw_g inp) (in_cf inp) lo hi).
-Proof.
-  destruct inp as [md cf rg rl lb]. destruct md.
-  - rewrite run_global_eq. intros H. inversion H. reflexivity.
-  - destruct lo as [lo|], hi as [hi|];
-      [rewrite run_array_eq by congruence; intros H; inversion H; reflexivity
-      |rewrite run_array_none by (try congruence; auto); discriminate ..].
-  - destruct lo as [lo|], hi as [hi|];
-      [rewrite run_array_eq by congruence; intros H; inversion H; reflexivity
-      |rewrite run_array_none by (try congruence; auto); discriminate ..].
-Qed.
+  (* without both range limits the array modifiers raise (max(None, x) is a TypeError in Python 3) *)
+  Lemma run_array_none md cf raw_g raw_l lab0 lo hi :
+    md <> MGlobal -> lo = None \/ hi = None ->
+    run' (mkIn md cf raw_g raw_l lab0) get_threshold_prog lo hi = None.
+  Proof.
+    intros Hmd H. destruct md; try congruence; destruct lo, hi; try reflexivity; destruct H; discriminate.
+  Qed.
 
-(* the regenerated program computes exactly the specified closed form *)
-Theorem run_eq_ref_lemma mul inp lo hi :
-  run mul inp get_threshold_prog lo hi = ref_run mul inp lo hi.
-Proof.
-  destruct inp as [md cf rg rl lb]. unfold ref_run. destruct md; cbn [in_mod].
-  - apply run_global_eq.
-  - destruct lo as [lo|], hi as [hi|];
-      [apply run_array_eq; congruence|apply run_array_none; (congruence || auto) ..].
-  - destruct lo as [lo|], hi as [hi|];
-      [apply run_array_eq; congruence|apply run_array_none; (congruence || auto) ..].
-Qed.
+  Lemma run_global_component inp lo hi l v :
+    run' inp get_threshold_prog lo hi = Some (l, v) ->
+    v = VNum (ref_global mul (in_raw_g inp) (in_cf inp) lo hi).
+  Proof.
+    destruct inp as [md cf rg rl lb]. destruct md.
+    - rewrite run_global_eq. intros H. inversion H. reflexivity.
+    - destruct lo as [lo|], hi as [hi|];
+        [rewrite run_array_eq by congruence; intros H; inversion H; reflexivity
+        |rewrite run_array_none by (try congruence; auto); discriminate ..].
+    - destruct lo as [lo|], hi as [hi|];
+        [rewrite run_array_eq by congruence; intros H; inversion H; reflexivity
+        |rewrite run_array_none by (try congruence; auto); discriminate ..].
+  Qed.
+
+  (* the regenerated program computes exactly the specified closed form *)
+  Theorem run_eq_ref_lemma inp lo hi :
+    run' inp get_threshold_prog lo hi = ref_run mul amul cast inp lo hi.
+  Proof.
+    destruct inp as [md cf rg rl lb]. unfold ref_run. destruct md; cbn [in_mod].
+    - apply run_global_eq.
+    - destruct lo as [lo|], hi as [hi|];
+        [apply run_array_eq; congruence|apply run_array_none; (congruence || auto) ..].
+    - destruct lo as [lo|], hi as [hi|];
+        [apply run_array_eq; congruence|apply run_array_none; (congruence || auto) ..].
+  Qed.
+End Run.
 
 (* ------------------------------------------------------------------ order reasoning *)
 
@@ -79,23 +85,25 @@ Proof.
   - destruct (qmin_spec x y) as [C [D _]]. lra.
 Qed.
 
-Theorem global_in_range_lemma mul inp lo hi l v :
+Theorem global_in_range_lemma mul amul cast inp lo hi l v :
   range_ok lo hi ->
-  run mul inp get_threshold_prog lo hi = Some (l, v) ->
+  run mul amul cast inp get_threshold_prog lo hi = Some (l, v) ->
   exists g, v = VNum g /\ in_range lo hi g.
 Proof.
   intros Hr H. apply run_global_component in H. eexists; split; [exact H|].
   apply clamp_opt_in_range; exact Hr.
 Qed.
 
-(* one element of the clamped array, parametric in the band constants *)
+(* one element of the clamped array, parametric in the band constants and in the array's conversion *)
 Section Band.
   Variable mul : Q -> Q -> Q.
+  Variable cast : Q -> Q.
+  Hypothesis cast_mono : forall a b, a <= b -> cast a <= cast b.
   Variables blo bhi : Q.
   Lemma clamp_elem lo hi g x :
     lo <= hi -> lo <= g -> g <= hi -> mul g blo <= g -> g <= mul g bhi ->
-    let t := clamp_hi (ref_rmax mul bhi hi g) (clamp_lo (ref_rmin mul blo lo g) x) in
-    (lo <= t /\ t <= hi) /\ (mul g blo <= t /\ t <= mul g bhi).
+    let t := clamp_hi (cast (ref_rmax mul bhi hi g)) (clamp_lo (cast (ref_rmin mul blo lo g)) x) in
+    (cast lo <= t /\ t <= cast hi) /\ (cast (mul g blo) <= t /\ t <= cast (mul g bhi)).
   Proof.
     intros H1 H2 H3 H4 H5. unfold ref_rmax, ref_rmin. cbn zeta.
     pose proof (qmax_spec lo (mul g blo)) as [A [B C]].
@@ -103,8 +111,9 @@ Section Band.
     remember (qmax lo (mul g blo)) as rmin eqn:Er. remember (qmin hi (mul g bhi)) as rmax eqn:Ex.
     clear Er Ex.
     assert (R : rmin <= rmax) by (destruct C as [C|C], F as [F|F]; subst; lra).
-    destruct (clamp_lo_spec rmin x) as [G [_ I]].
-    destruct (clamp_hi_spec rmax (clamp_lo rmin x)) as [J [K [M|M]]]; rewrite M in *.
+    apply cast_mono in A, B, D, E, R.
+    destruct (clamp_lo_spec (cast rmin) x) as [G [_ I]].
+    destruct (clamp_hi_spec (cast rmax) (clamp_lo (cast rmin) x)) as [J [K [M|M]]]; rewrite M in *.
     - repeat split; lra.
     - destruct I as [I|I]; rewrite I in *; repeat split; lra.
   Qed.
@@ -113,9 +122,11 @@ End Band.
 Lemma Forall_map_iff {A B} (f : A -> B) (P : B -> Prop) l : Forall P (map f l) <-> Forall (fun x => P (f x)) l.
 Proof. induction l; cbn; split; intros H; inversion H; subst; constructor; tauto. Qed.
 
-Lemma ref_array_in_band mul lo hi g cf raws :
+Lemma ref_array_in_band mul amul cast lo hi g cf raws :
+  (forall a b, a <= b -> cast a <= cast b) ->
   lo <= hi -> lo <= g -> g <= hi -> mul g band_lo <= g -> g <= mul g band_hi ->
-  Forall (fun t => (lo <= t /\ t <= hi) /\ in_band mul g t) (ref_array mul band_lo band_hi cf lo hi g raws).
+  Forall (fun t => in_range_cast cast lo hi t /\ in_band_cast mul cast g t)
+         (ref_array mul amul cast band_lo band_hi cf lo hi g raws).
 Proof.
   intros. unfold ref_array. rewrite !Forall_map_iff. apply Forall_forall. intros x _.
   apply clamp_elem; assumption.
@@ -129,29 +140,30 @@ Proof.
   - intros H Hb. eapply IH; eassumption.
 Qed.
 
-Lemma ref_local_nth mul inp lo hi g i t :
-  nth_error (ref_local mul band_lo band_hi sentinel_value inp lo hi g) i = Some t ->
+Lemma ref_local_nth mul amul cast inp lo hi g i t :
+  nth_error (ref_local mul amul cast band_lo band_hi sentinel_value inp lo hi g) i = Some t ->
   unlabelled inp i = false ->
-  nth_error (ref_array mul band_lo band_hi (in_cf inp) lo hi g (in_raw_l inp)) i = Some t.
+  nth_error (ref_array mul amul cast band_lo band_hi (in_cf inp) lo hi g (in_raw_l inp)) i = Some t.
 Proof.
   unfold ref_local, unlabelled. destruct (in_mod inp); try (intros H _; exact H).
   destruct (in_lab0 inp); [|intros H _; exact H]. apply nth_error_sentinel.
 Qed.
 
-Theorem local_in_band_lemma mul inp lo hi l g :
+Theorem local_in_band_lemma mul amul cast inp lo hi l g :
+  (forall a b, a <= b -> cast a <= cast b) ->
   lo <= hi ->
-  run mul inp get_threshold_prog (Some lo) (Some hi) = Some (l, VNum g) ->
+  run mul amul cast inp get_threshold_prog (Some lo) (Some hi) = Some (l, VNum g) ->
   mul g band_lo <= g -> g <= mul g band_hi ->
   match l with
   | VNum t => lo <= t /\ t <= hi
   | VArr ts => forall i t, nth_error ts i = Some t -> unlabelled inp i = false ->
-                           (lo <= t /\ t <= hi) /\ in_band mul g t
+                           in_range_cast cast lo hi t /\ in_band_cast mul cast g t
   | VNone => False
   end.
 Proof.
-  intros Hr H Hlo Hhi.
+  intros Hc Hr H Hlo Hhi.
   assert (Hg : in_range (Some lo) (Some hi) g).
-  { destruct (global_in_range_lemma mul inp (Some lo) (Some hi) l (VNum g)) as [g' [E R]]; auto.
+  { destruct (global_in_range_lemma mul amul cast inp (Some lo) (Some hi) l (VNum g)) as [g' [E R]]; auto.
     - intros a b Ea Eb. inversion Ea; inversion Eb; subst; exact Hr.
     - inversion E. subst. exact R. }
   destruct Hg as [G1 G2]. specialize (G1 _ eq_refl). specialize (G2 _ eq_refl).
@@ -163,18 +175,18 @@ Proof.
     destruct R as [R1 R2]. split; [apply R1|apply R2]; reflexivity.
   - rewrite run_array_eq in H by congruence. cbn zeta in H. inversion H; subst. clear H.
     intros i t Hn Hu. apply ref_local_nth in Hn; [|exact Hu].
-    pose proof (ref_array_in_band mul lo hi _ cf rl Hr G1 G2 Hlo Hhi) as F.
+    pose proof (ref_array_in_band mul amul cast lo hi _ cf rl Hc Hr G1 G2 Hlo Hhi) as F.
     rewrite Forall_forall in F. apply F. eapply nth_error_In. exact Hn.
   - rewrite run_array_eq in H by congruence. cbn zeta in H. inversion H; subst. clear H.
     intros i t Hn Hu. apply ref_local_nth in Hn; [|exact Hu].
-    pose proof (ref_array_in_band mul lo hi _ cf rl Hr G1 G2 Hlo Hhi) as F.
+    pose proof (ref_array_in_band mul amul cast lo hi _ cf rl Hc Hr G1 G2 Hlo Hhi) as F.
     rewrite Forall_forall in F. apply F. eapply nth_error_In. exact Hn.
 Qed.
 
-(* exact product: the bracket hypotheses follow from 0 < band_lo <= 1 <= band_hi and 0 <= lo *)
+(* exact product, float64 array: the bracket hypotheses follow from 0 < band_lo <= 1 <= band_hi and 0 <= lo *)
 Theorem local_in_band_exact_lemma inp lo hi l g :
   0 <= lo -> lo <= hi ->
-  run Qmult inp get_threshold_prog (Some lo) (Some hi) = Some (l, VNum g) ->
+  run Qmult Qmult (fun q => q) inp get_threshold_prog (Some lo) (Some hi) = Some (l, VNum g) ->
   match l with
   | VNum t => lo <= t /\ t <= hi
   | VArr ts => forall i t, nth_error ts i = Some t -> unlabelled inp i = false ->
@@ -184,10 +196,11 @@ Theorem local_in_band_exact_lemma inp lo hi l g :
 Proof.
   intros H0 Hr H.
   assert (Hg : lo <= g).
-  { destruct (global_in_range_lemma Qmult inp (Some lo) (Some hi) l (VNum g)) as [g' [E [R _]]]; auto.
+  { destruct (global_in_range_lemma Qmult Qmult (fun q => q) inp (Some lo) (Some hi) l (VNum g)) as [g' [E [R _]]]; auto.
     - intros a b Ea Eb. inversion Ea; inversion Eb; subst; exact Hr.
     - inversion E. subst. apply R. reflexivity. }
-  apply (local_in_band_lemma Qmult inp lo hi l g Hr H); unfold band_lo, band_hi; lra.
+  apply (local_in_band_lemma Qmult Qmult (fun q => q) inp lo hi l g (fun a b Hab => Hab) Hr H);
+    unfold band_lo, band_hi; lra.
 Qed.
 
 (* ------------------------------------------------------------------ constants and access shapes *)
@@ -229,14 +242,14 @@ Proof.
   - apply Qle_bool_iff. exact A.
   - apply Qle_bool_iff. exact B.
 Qed.
-Lemma in_bandb_sound mul g t : in_bandb mul g t = true -> in_band mul g t.
+Lemma in_bandb_sound mul cast g t : in_bandb mul cast g t = true -> in_band_cast mul cast g t.
 Proof.
-  unfold in_bandb, in_band. rewrite andb_true_iff. intros [A B]. split; apply Qle_bool_iff; assumption.
+  unfold in_bandb, in_band_cast. rewrite andb_true_iff. intros [A B]. split; apply Qle_bool_iff; assumption.
 Qed.
-Theorem check_thresholds_sound_lemma mul lo hi g band ts :
-  check_thresholds mul lo hi g band ts = true ->
+Theorem check_thresholds_sound_lemma mul cast lo hi g band ts :
+  check_thresholds mul cast lo hi g band ts = true ->
   in_range lo hi g /\
-  Forall (fun t => in_range lo hi t /\ (band = true -> in_band mul g t)) ts.
+  Forall (fun t => in_range (cast_opt cast lo) (cast_opt cast hi) t /\ (band = true -> in_band_cast mul cast g t)) ts.
 Proof.
   unfold check_thresholds. rewrite andb_true_iff, forallb_forall. intros [A B]. split.
   - apply in_rangeb_sound; exact A.
@@ -253,7 +266,7 @@ Example ex_inputs : inputs :=
 (* lo = 1/10, hi = 3/5: raw 0.3 * 2 = 0.6; band = [max 0.1 (0.6*0.7), min 0.6 (0.9)]; one value clamped up,
    one kept, one clamped down, one sentinel *)
 Example ex_run :
-  exists l g, run Qmult ex_inputs get_threshold_prog (Some (Qmake 1 10)) (Some (Qmake 3 5)) = Some (VArr l, VNum g)
+  exists l g, run Qmult Qmult (fun q => q) ex_inputs get_threshold_prog (Some (Qmake 1 10)) (Some (Qmake 3 5)) = Some (VArr l, VNum g)
               /\ g == 3 # 5 /\ Forall2 Qeq l [band_lo * (3 # 5); 1 # 2; 3 # 5; 1].
 Proof.
   eexists. eexists. split; [vm_compute; reflexivity|]. split; [reflexivity|].
@@ -262,6 +275,6 @@ Qed.
 
 (* the checker accepts the output of the example above and rejects a threshold below the band *)
 Example ex_check :
-  check_thresholds Qmult (Some (Qmake 1 10)) (Some (Qmake 3 5)) (Qmake 3 5) true [band_lo * (3 # 5); 1 # 2; 3 # 5] = true /\
-  check_thresholds Qmult (Some (Qmake 1 10)) (Some (Qmake 3 5)) (Qmake 3 5) true [2 # 5] = false.
+  check_thresholds Qmult (fun q => q) (Some (Qmake 1 10)) (Some (Qmake 3 5)) (Qmake 3 5) true [band_lo * (3 # 5); 1 # 2; 3 # 5] = true /\
+  check_thresholds Qmult (fun q => q) (Some (Qmake 1 10)) (Some (Qmake 3 5)) (Qmake 3 5) true [2 # 5] = false.
 Proof. split; vm_compute; reflexivity. Qed.
